@@ -15,6 +15,14 @@ CHECKS = {
         specs=["Table", "TableImpl", "TableMC", "TableTrace"]),
 }
 
+CHECKS["C01"] = dict(
+    technique="TLA+ reference semantics (LuaSem, CEK machine) evaluated step by step by TLC on every generated program; the real interpreter's recorded trace must be the trace the spec defines",
+    category="model_checking",
+    text="Each generated program (random type-directed; multiple-assignment shapes; operator x operand-kind x destination-kind; padded with many locals/constants) is run on the real lexer+parser+compiler+VM and its observable trace (emit values, results, error line) is validated by TLC against the explicit TLA+ semantics LuaSem; every candidate is reproduced on a fresh interpreter before it is reported.",
+    design_ref="DESIGN.md section 3.4, 4 C01",
+    note="Trusted: TLC, the Go runner (emit/outcome normalisation), the Python AST renderer. Bounded: integer-valued numbers |n|<2^30 (other runs are inconclusive and counted), programs of ~20-200 nodes, seeded sampling of the shape families (exhaustive 2-target assignments in the thorough tier).",
+    specs=["LuaValues", "LuaNames", "LuaSem", "LuaSemTrace"])
+
 NOT_YET = {}
 
 
